@@ -1252,9 +1252,17 @@ impl Actor for NodeSession {
             // ======== Lifecycle event handlers (PG groups + PID registry) ======== //
             SupervisionEvent::ProcessGroupChanged(change) => match change {
                 GroupChangeMessage::Join(scope, group, actors) => {
+                    // Group notifications are sent after the group table is unlocked, so the `Join`
+                    // of an actor that exited while it was being joined can arrive after its exit
+                    // `Leave` (and after the `Terminate` of its pid). Announcing such an actor would
+                    // make the peer create a remote actor for it that nothing ever stops: an actor
+                    // that is on its way out has already left all of its groups.
                     let filtered = actors
                         .into_iter()
-                        .filter(|act| act.supports_remoting())
+                        .filter(|act| {
+                            act.supports_remoting()
+                                && act.get_status() < ractor::ActorStatus::Stopping
+                        })
                         .map(|act| control_protocol::Actor {
                             name: act.get_name(),
                             pid: act.get_id().pid(),
